@@ -3,7 +3,7 @@
 cd /verif
 tier="${1:-quick}"
 for id in $(python3 -c "import json;print(' '.join(c['property_id'] for c in json.load(open('MANIFEST.json'))['checks']))"); do
-  s=$(date +%s); out=$(./check $id $tier 2>&1 | grep -v '^proptest'); rc=$?
+  s=$(date +%s); out=$( (./check $id $tier; echo "CHECKRC=$?") 2>&1 | grep -v '^proptest'); rc=$(echo "$out" | sed -n 's/^CHECKRC=//p' | tail -1)
   echo "$id rc=$rc $(( $(date +%s) - s ))s :: $(echo "$out" | grep -E '^(C[0-9]+ |VIOLATION|INCONCLUSIVE)' | head -3 | tr '\n' ' ')"
 done
 python3-vt - <<'PY'
